@@ -47,9 +47,7 @@ EXPLANATION = (
     "reject safe-code use of the unchecked constructors, size-field writers, raw mutable escape and unchecked encoder."
 )
 RESIDUAL = [
-    "numeric correctness of the layout arithmetic for the variable parts of ScionHeaderLayout (address header and path offsets): those sub-view ranges "
-    "(8 get_unchecked sites of ScionHeaderView, listed in the evidence under subview.not_decided) are covered only by the taint rule, not bounded against the validated size; "
-    "the StandardPathView and UdpDatagramView ranges are decided by SUBVIEW",
+    "numeric correctness of layout arithmetic that does not end in a get_unchecked on the view's own buffer (e.g. ranges handed to safe slicing, which panic rather than read out of bounds: PANIC rule)",
     "the remaining unsafe primitives outside view methods (get_unchecked in layout code; the *arguments* of from_*_unchecked sub-view creation inside accessors): enumerated in the evidence, not individually discharged",
     "termination (all loops in scope are iterator-driven: listed, not proved)",
 ]
@@ -911,8 +909,13 @@ def subview_rule(F, R, vts, fns):
                 for cd, v in here:
                     end = v.fields[1] if len(v.fields) > 1 else None
                     start = v.fields[0]
+                    if all(LN.unsat(list(cd) + list(sc)) for sc, size in szs):
+                        ok = False
+                        why = "no constructor path is compatible with this accessor path (vacuous)"
                     for sc, size in szs:
                         conds = list(cd) + list(sc)       # everything that held on the constructor's Ok path holds for the view
+                        if LN.unsat(conds):
+                            continue                      # this accessor path and this constructor path saw different bytes: impossible together
                         bound = end if end is not None else start
                         if not LN.implied_nonneg(size.sub(bound), conds) or (end is not None and not LN.implied_nonneg(end.sub(start), conds)):
                             ok = False
@@ -928,8 +931,8 @@ def subview_rule(F, R, vts, fns):
                 R.discharged -= 1
                 R.violation("SUBVIEW", "%s/get_unchecked" % p, "%s takes self.0.get_unchecked(range) where the range is not proven to lie within the bytes the view was "
                             "validated for (%s): out-of-bounds slice on a successfully constructed view" % (short(p), why), c.span.loc)
-    R.floor("SUBVIEW", len(proven), 10, "get_unchecked sites on self.0 proven within the validated size (8 StandardPathView accessors, 2 UdpDatagramView)")
+    R.floor("SUBVIEW", len(proven), 18, "get_unchecked sites on self.0 proven within the validated size (8 StandardPathView, 8 ScionHeaderView, 2 UdpDatagramView)")
     R.extra["subview"] = {"sites": n, "proven": [(short(p), l) for p, l, w in proven], "not_decided": [(short(p), l, w[:120]) for p, l, w in undecided]}
 
 
-SUBVIEW_ARMED = r"view::StandardPathView::(hop_fields|hop_fields_mut|info_fields|info_fields_mut|hop_field|hop_field_mut|info_field|info_field_mut)$|udp::view::UdpDatagramView::payload(_mut)?$"
+SUBVIEW_ARMED = r"."        # every site: all 18 are proven on 8f07ce4
